@@ -84,7 +84,11 @@ end module pm
 def cases():
     out = []
     variants = [('n3', {'n': 3}, {}), ('n2-m2', {'n': 2, 'm': 2}, {}), ('n3-by-value', {'n': 3}, {'replace_by_value': True}),
-                ('flag2', {'flag': 2}, {}), ('n2-flag1-by-value', {'n': 2, 'flag': 1}, {'replace_by_value': True})]
+                ('flag2', {'flag': 2}, {}), ('n2-flag1-by-value', {'n': 2, 'flag': 1}, {'replace_by_value': True}),
+                # the order of the dictionary differs from the order in which the calls pass the variables
+                ('m2-n3-reversed-dict', {'m': 2, 'n': 3}, {}), ('flag1-m3-n2', {'flag': 1, 'm': 3, 'n': 2}, {}),
+                ('flag2-n2-m3-by-value', {'flag': 2, 'n': 2, 'm': 3}, {'replace_by_value': True}),
+                ('m3-flag2', {'m': 3, 'flag': 2}, {})]
     for name, dic, kw in variants:
         fn = mk_param(dic, **kw)
         fn.src = SRC
